@@ -243,10 +243,12 @@ def _validate_concretely(rec, prob, kwargs, assumptions, mk, tag):
     # generic position first (no input exactly zero: side conditions such as "the factor matrix has full column rank" were
     # recorded through uninterpreted SQRT terms and are not part of the UF-free hypotheses), then without that preference
     generic = [v != 0 for v in mk.names.values()]
-    for hyps, tmo in ((assumptions + generic, 2000), (uf_free + generic, 2000), (uf_free, 1500)):
+    # inputs of magnitude <= 2 first: the concrete oracles of the problems (finite-difference Jacobians, observed convergence orders,
+    # fixed-point iterations) are meaningful only for reasonably scaled inputs; <= 8 as a fallback
+    for hyps, tmo, lim in ((assumptions + generic, 2000, 2), (uf_free + generic, 2000, 2), (uf_free + generic, 1500, 8), (uf_free, 1500, 8)):
         s = z3.Solver(ctx=ctx2)
         s.set("timeout", tmo)
-        for a_ in hyps + mk.bounds():
+        for a_ in hyps + mk.bounds(lim=lim):
             s.add(a_.translate(ctx2))
         if str(s.check()) == "sat":
             model = s.model()
